@@ -47,4 +47,21 @@ CHECKS = {
                      A("c14", params={"section": 1, "max_events": 5}, what="orderings of <= 5 simultaneous events"),
                      A("c14", variant="tiny", params={"section": 1, "max_events": 5}, what="same with MAX_EPOLL_EVENTS=4 (batches are cut by the daemon's own limit)")],
     },
+    "C07": {
+        "level": "model_checking",
+        "text": "Every sequence and every prefix of enabled actions up to depth 3 (quick) / 4 (thorough) over three jet peers (tcp, websocket, unix socket), HTTP front-door probes failing at different handshake stages, accept-path failures, routed requests with virtual-clock expiry, repeated authentication and garbage is executed on the real daemon in both listener set-ups and ended either by closing everything (peers, accounted heap, raw heap blocks, descriptors and timers must be back at the idle baseline) followed by SIGTERM, or by SIGTERM at once (everything closed and released, exit status 0). A descriptor monitor in the simulated kernel (numbers never reused) reports every double close, use after close and epoll_ctl on a foreign number; the daemon's accounted heap is sampled at every allocation against the cap (cap variant: fill until refused, then every request type).",
+        "note": "Trusted: simk's descriptor table and heap counters. Bounded by depth and by the action alphabet; one known finding (HTTP connections before upgrade are not released at SIGTERM) is listed in known_findings.txt.",
+        "technique": "stateless model checking of the implementation: exhaustive action sequences with resource-baseline, descriptor-hygiene and clean-exit oracles",
+        "quick": [A("c07", params={"depth": 3}, what="histories depth 3 x 2 endings"),
+                  A("c07", variant="tiny", params={"depth": 3}, what="same with tiny tables (routing table overflow reachable)"),
+                  A("c07", params={"depth": 2, "local_only": 1}, what="daemon started with -l (5 listeners), depth 2"),
+                  A("c07", variant="cap", params={"section": 1, "valsize": 300}, what="96 KiB heap cap: fill with 300-byte states until refused, then every request type"),
+                  A("c07", variant="cap", params={"section": 1, "valsize": 1}, what="96 KiB heap cap, 1-byte states")],
+        "thorough": [A("c07", params={"depth": 4}, what="histories depth 4 x 2 endings", deadline=900),
+                     A("c07", variant="tiny", params={"depth": 4}, what="tiny tables, depth 4", deadline=900),
+                     A("c07", params={"depth": 3, "local_only": 1}, what="-l set-up, depth 3"),
+                     A("c07", variant="cap", params={"section": 1, "valsize": 300}, what="heap cap, 300-byte states"),
+                     A("c07", variant="cap", params={"section": 1, "valsize": 40}, what="heap cap, 40-byte states"),
+                     A("c07", variant="cap", params={"section": 1, "valsize": 1}, what="heap cap, 1-byte states")],
+    },
 }
